@@ -10,7 +10,7 @@ from ..e3_values import *  # noqa
 from ..e3_state import State
 from ..e3_interp import Raised, PathLimit
 from .common import (issue_key, grouped_runs, shapes_desc, report_undecided, rule_construct,
-                     norm, calls_in)
+                     norm, calls_in, path_feasible)
 
 # the one explicit raise that is documented API behaviour of the value class (asking
 # an undated value for a datetime); it is reachable from the parser only through
@@ -64,12 +64,16 @@ def _rules(ctx, rep, eng):
         rule = runs[0].rule
         bad = {}
         npaths = 0
+        infeasible = 0
         for run in runs:
             for p in run.paths:
                 npaths += 1
                 if p.kind == "raise":
                     k = issue_key(rule, p.val.issue)
                     if k not in bad:
+                        if not path_feasible(eng, p):
+                            infeasible += 1
+                            continue
                         bad[k] = (p.val, run)
         for k, (rv, run) in sorted(bad.items()):
             rep.violated("no-raise", k, rv.issue.where,
@@ -78,7 +82,8 @@ def _rules(ctx, rep, eng):
                                   "exception": rv.exc, "chain": [c[1] for c in rv.issue.chain]})
         if not bad:
             rep.ok("no-raise", rule_construct(rule, "body"), rule.where,
-                   "{} paths over {} shape combinations".format(npaths, len(runs)))
+                   "{} paths over {} shape combinations{}".format(
+                       npaths, len(runs), " ({} raising paths infeasible)".format(infeasible) if infeasible else ""))
     # rules that never ran (no shape reaches them) are C19's business
 
 
